@@ -227,6 +227,9 @@ func (api *HTTP) handleStatus(res http.ResponseWriter, req *http.Request) {
 	// Use one IRCServer for locking, reading and unlocking: FSM.Restore can
 	// replace api.ircServer() at any time.
 	i := api.ircServer()
+	// Copy the sessions before taking ConfigMu: sessionsMu is always acquired
+	// before ConfigMu.
+	sessions := i.GetSessions()
 	i.ConfigMu.RLock()
 	defer i.ConfigMu.RUnlock()
 	args := struct {
@@ -245,7 +248,7 @@ func (api *HTTP) handleStatus(res http.ResponseWriter, req *http.Request) {
 		Leader:             string(api.raftNode.Leader()),
 		Peers:              p,
 		Stats:              api.raftNode.Stats(),
-		Sessions:           i.GetSessions(),
+		Sessions:           sessions,
 		GetMessageRequests: api.copyGetMessagesRequests(),
 		NetConfig:          i.Config,
 		CurrentLink:        "/status",
